@@ -1170,6 +1170,20 @@ func (c *Checker) checkWellFormed(x *callCtx) {
 						seen[r] = true
 					}
 				}
+				// the counter held with the create role is never below a nonce ever issued for the token
+				// (single-creator discipline; an undisciplined token id is the test author's responsibility)
+				tok := strings.TrimPrefix(k, RolePrefix)
+				if !dupOK && !c.undisciplined[tok] && hasRole(roles, RoleNFTCreate) {
+					var top uint64
+					for n := range c.issued[tok] {
+						if n > top {
+							top = n
+						}
+					}
+					if cnt := U64(a.Value([]byte(NoncePrefix + tok))); cnt < top {
+						c.report(x, "C15", "account %x holds the create role of %q with counter %d below the issued nonce %d", addr, tok, cnt, top)
+					}
+				}
 			case strings.HasPrefix(k, EsdtPrefix) && !isSys:
 				c.checkEntry(x, addr, k, v)
 			}
